@@ -1,6 +1,6 @@
 """C03 — Fajr, Isha (and Imsaak) occur at the configured solar depression angle (engine M, UF + lemmas)."""
 from ..common import *
-from ..obl import base, kernels, policy, jd
+from ..obl import base, kernels, policy, jd, rounding
 from . import kernelprop as kp
 
 LEVEL = "model_checking"
@@ -19,7 +19,13 @@ def run(rep):
     # a Fajr/Isha reported WITHOUT the extreme flag under the library's default policy claims to be the conventional one: frame clause
     DEFAULT = "NearestGoodDayFajrIshaInvalid"
     res = base.run_obligations(rep, [(kernels.fajr_isha, 60), (kernels.fajr_isha_monotone, 60), (policy.imsaak, None), (jd.jd_formula, (1600, 2399)),
-                                     (policy.policy_clauses, (DEFAULT, ["frame"], "named"))])
+                                     (policy.policy_clauses, (DEFAULT, ["frame"], "named"))] +
+                              # the reported (unrounded) clock time of the three twilight times is the kernel's hour (incl. negative hours:
+                              # a clock far behind solar time)
+                              [(rounding.rounding, ("None", k, -50, 75, 1500)) for k in ("Fajr", "Isha", "Imsaak")])
+    if any((x["cands"] or x["inconclusive"]) for x in res if x["name"].startswith("hour_to_time")):
+        from . import c11
+        c11.confirm_rounding(rep, res)
     fr = [x for x in res if x["name"].startswith("adj_for_ext_lat")]
     if any((x["cands"] or x["inconclusive"]) for x in fr) and any(not c.get("known_role") for x in fr for c in x["cands"]) or any(x["inconclusive"] for x in fr):
         from . import policyprop as pp
